@@ -281,13 +281,12 @@ def getitem(I, o, k):
         if j == n:
             I.raise_(IndexError("%s index out of range" % type(o).__name__))
         return o[j]
+    if not isinstance(o, (dict, list, tuple, str, bytes, range)) and not isinstance(o, tuple(ENGINE_TYPES)):
+        gi = _find_dunder(type(o), "__getitem__")
+        if isinstance(gi, types.FunctionType) and I.func_info(gi) is not None:
+            return I.call(types.MethodType(gi, o), [k], {})
     if isinstance(k, SYM):
         I.unsupported("subscript of %s with a symbolic key" % type(o).__name__)
-    if isinstance(o, (dict, list, tuple, str, bytes, range)) or isinstance(o, tuple(ENGINE_TYPES)):
-        return I.native(operator.getitem, o, k)
-    gi = _find_dunder(type(o), "__getitem__")
-    if isinstance(gi, types.FunctionType) and I.func_info(gi) is not None:
-        return I.call(types.MethodType(gi, o), [k], {})
     return I.native(operator.getitem, o, k)
 
 
